@@ -360,6 +360,11 @@ def rule_wiring(chk):
     c03.rule_wrapper(chk, tpl)
     rule_reduce_binding(chk, c03, tpl)
     rule_attribute_types(chk)
+    # the d_* / s_* pointers are declared with the element type of their property (model run shared with C12)
+    spec12 = importlib.util.spec_from_file_location('c12mod', os.path.join(os.path.dirname(os.path.abspath(__file__)), 'c12.py'))
+    c12 = importlib.util.module_from_spec(spec12)
+    spec12.loader.exec_module(c12)
+    c12.rule_typed_array_declarations(chk)
     # the wrapper that `src.X` / `dst.X` resolve through must (re)bind every property AND every constant whenever an array is set
     pick = c03.simplest
     lines2 = MT.skeleton(tpl.fn('__template__'), choose=pick)
